@@ -138,6 +138,57 @@ def _division_rules(ctx, rep, meth, opcls, opname):
         rep.ob('sign.mod-follows-dividend', 'Integer.imod: remainder negated iff the dividend was negative', ok, '', ctx.where(fn))
 
 
+def _range_of(e, env):
+    """Interval of a small integer expression: bytes, sums, masks, names."""
+    if isinstance(e, ast.Constant) and isinstance(e.value, int):
+        return (e.value, e.value)
+    if isinstance(e, ast.Name):
+        return env.get(e.id)
+    if isinstance(e, ast.Subscript) and isinstance(e.value, ast.Call) and norm(e.value.func) == 'bytearray' and not isinstance(e.slice, ast.Slice):
+        return (0, 255)
+    if isinstance(e, ast.BinOp):
+        l, r = _range_of(e.left, env), _range_of(e.right, env)
+        if isinstance(e.op, ast.BitAnd):
+            for x in (l, r):
+                if x is not None and x[0] == x[1] and x[0] >= 0:
+                    return (0, x[0])
+            return None
+        if l is None or r is None:
+            return None
+        if isinstance(e.op, ast.Add):
+            return (l[0] + r[0], l[1] + r[1])
+        if isinstance(e.op, ast.Sub):
+            return (l[0] - r[1], l[1] - r[0])
+        if isinstance(e.op, ast.Mod) and r[0] == r[1] and r[0] > 0:
+            return (0, r[0] - 1)
+    return None
+
+
+def _ranges(stmts, env=None):
+    """Forward interval pass over straight-line code with `if name > const:` refinement (hull at joins)."""
+    env = dict(env or {})
+    for st in stmts:
+        if isinstance(st, ast.Assign) and isinstance(st.targets[0], ast.Name):
+            env[st.targets[0].id] = _range_of(st.value, env)
+        elif isinstance(st, ast.AugAssign) and isinstance(st.target, ast.Name):
+            env[st.target.id] = _range_of(ast.BinOp(left=ast.Name(id=st.target.id), op=st.op, right=st.value), env)
+        elif isinstance(st, ast.If):
+            t = st.test
+            benv, oenv = dict(env), dict(env)
+            if isinstance(t, ast.Compare) and len(t.ops) == 1 and isinstance(t.left, ast.Name) and isinstance(t.ops[0], ast.Gt):
+                c = _range_of(t.comparators[0], env)
+                cur = env.get(t.left.id)
+                if c is not None and c[0] == c[1] and cur is not None:
+                    benv[t.left.id] = (max(cur[0], c[0] + 1), cur[1])
+                    oenv[t.left.id] = (cur[0], min(cur[1], c[0]))
+            benv = _ranges(st.body, benv)
+            oenv = _ranges(st.orelse, oenv)
+            for k in set(benv) | set(oenv):
+                a, b = benv.get(k), oenv.get(k)
+                env[k] = None if a is None or b is None else (min(a[0], b[0]), max(a[1], b[1]))
+    return env
+
+
 def check(ctx, rep):
     _division_rules(ctx, rep, 'idiv_int', ast.FloorDiv, '//')
     _division_rules(ctx, rep, 'imod', ast.Mod, '%')
@@ -254,6 +305,30 @@ def check(ctx, rep):
         ok = bool(cond) and [type(o) for o in cond[0].cond.ops] == [ast.Eq, ast.NotEq]
         rep.ob('for.iadd-overflow-condition', 'overflow iff operand signs equal and result sign differs', ok,
                cond[0].text if cond else 'no chained comparison', ctx.where(ovf[0]))
+    # the sign-change test must look at the byte that is stored: (a) every update of the sum bytes (the carry)
+    # precedes it, (b) the value whose top bit it reads has been reduced to one byte (the sum of two high
+    # bytes plus a carry ranges over 0..511, where `> 0x7f` is not the sign bit: -32768 + -1 gave 32767 on
+    # the pinned tree; repaired in /repo)
+    if ovf and store:
+        test_stmt = fl.stmt_of(ovf[0]) if fl.stmt_of(ovf[0]) in ia.body else ovf[0]._parent
+        while test_stmt not in ia.body and getattr(test_stmt, '_parent', None) is not None:
+            test_stmt = test_stmt._parent
+        k = ia.body.index(test_stmt)
+        stored = set(x.id for x in ast.walk(store[0].value) if isinstance(x, ast.Name))
+        late = [short(n) for st in ia.body[k + 1:] for n in ast.walk(st)
+                if isinstance(n, (ast.Assign, ast.AugAssign)) and any(isinstance(t, ast.Name) and t.id in stored
+                                                                     for t in (n.targets if isinstance(n, ast.Assign) else [n.target]))]
+        rep.ob('for.iadd-test-sees-carried-sum', 'Integer.iadd: the carry is applied before the sign-change test', not late,
+               'updated after the overflow test: %s' % late, ctx.where(test_stmt))
+        env = _ranges(ia.body[:k])
+        bad = []
+        for c in ast.walk(test_stmt.test):
+            if isinstance(c, ast.Compare) and len(c.ops) == 1 and isinstance(c.ops[0], ast.Gt) and norm(c.comparators[0]) in ('127', '0x7f'):
+                r = _range_of(c.left, env)
+                if r is None or r[1] > 255 or r[0] < 0:
+                    bad.append('%s ranges over %s' % (norm(c.left), r))
+        rep.ob('for.iadd-sign-of-reduced-byte', 'Integer.iadd: every `> 0x7f` sign test reads a value in 0..255', not bad,
+               '; '.join(bad) + ': for a sum of two high bytes `> 0x7f` is not the sign of the 16-bit result', ctx.where(test_stmt))
     isub = ctx.fn(N + ':Integer.isub')
     rep.ob('sub.through-iadd', 'Integer.isub = iadd(negated copy)',
            norm(vm.returns(isub)[0].value) == 'self.iadd(rhs.clone().ineg())', '', ctx.where(isub))
@@ -298,6 +373,7 @@ def variants(ctx):
            in_fn('Interpreter.iterate_loop', lambda fn: mu.replace_expr(fn, mu.text_is('self._scalars.view(varname2)'),
                                                                         'self._scalars.view(varname2).clone()')),
            expect='for.counter'),
+        Va('iadd-carry-after-test', 'break', N, in_fn('Integer.iadd', _carry_after_test), expect='for.iadd-test-sees-carried-sum'),
         Va('iadd-overflow-dropped', 'break', N,
            in_fn('Integer.iadd', lambda fn: mu.remove_stmt(fn, lambda st: isinstance(st, ast.If) and 'OVERFLOW' in norm(st))),
            expect='for.iadd-overflow'),
@@ -320,3 +396,13 @@ def _drop_kw(fn, attr):
             n.keywords = []
             return True
     return False
+
+
+def _carry_after_test(fn):
+    carry = [st for st in fn.body if isinstance(st, ast.If) and 'lsb > 255' in norm(st.test)]
+    test = [st for st in fn.body if isinstance(st, ast.If) and 'OVERFLOW' in norm(st)]
+    if len(carry) != 1 or len(test) != 1:
+        return False
+    fn.body.remove(carry[0])
+    fn.body.insert(fn.body.index(test[0]) + 1, carry[0])
+    return True
